@@ -478,6 +478,10 @@ def hostile_cases():
                'pkg/sub.py': 'from . import *\nfrom pkg import thing\nz = thing\n'})
     add('import-self', 'from app.main import x\nx.\nimport app.main\napp.main.x\nx = x\n',
         files={'app/__init__.py': '', 'app/main.py': 'from app.main import x\nx = x\n'}, fname='app/main.py')
+    add('import-cycle-name-through-star', 'from a import X\nX\nX.\nimport b\nb.X\n',
+        files={'a.py': 'from b import X\n', 'b.py': 'from a import *\n'})
+    add('import-cycle-name-through-star-conditional', 'from a import X, Y\nX\nX.\nY().\n',
+        files={'a.py': 'from b import X, Y\n', 'b.py': 'from a import *\nif c:\n    Y = Z\n    class X(Z): pass\nelse:\n    X = Z\n    class Y(Z): pass\n'})
     add('import-cycle-class-bases', 'from k1 import A\nA().\nA.x\nclass C(A): pass\nC().\n',
         files={'k1.py': 'from k2 import B\nclass A(B):\n    x = 1\n', 'k2.py': 'from k1 import A\nclass B(A):\n    y = 2\n'})
     add('import-cycle-functions', 'from r1 import f\nf().\nv = f()\nv.x\n',
